@@ -1394,6 +1394,7 @@ def apply_text_layout(
                 if s.sc:
                     line.append(b"".rjust(s.sc))
                     attrrange(s.offs, s.offs, s.sc)
+                    rle_append_modify(linec, (None, s.sc))
             else:
                 line.append(b"".rjust(s.sc))
                 linea.append((None, s.sc))
